@@ -129,6 +129,7 @@ def run_one(cfg, root):
         if cfg["vars"][k]:
             val = vals.get(k, {"os": "linux", "arch": "amd64", "variant": "v8", "dname": "ubuntu", "dver": "24.04"}[k])
             env[var] = bytes(val) if isinstance(val, list) else val
+    env.update(cfg.get("extra_env", {}))
     envb = {k.encode(): (v if isinstance(v, bytes) else v.encode()) for k, v in env.items()}
     p = subprocess.run(["setpriv", "--reuid=65534", "--regid=65534", "--clear-groups",
                         os.path.join(root, "bin", cfg["exe"])] + args, cwd=os.path.join(root, "app"), env=envb,
@@ -162,6 +163,15 @@ def run_one(cfg, root):
     # make the tree removable again
     for d in ("layers", "plandir"):
         os.chmod(os.path.join(root, d), 0o755)
+    if cfg.get("want_tree"):
+        tree = []
+        for d in ("layers", "plandir"):
+            for dp, dn, fn in os.walk(os.path.join(root, d)):
+                dn.sort()
+                for f in sorted(fn):
+                    q = os.path.join(dp, f)
+                    tree.append((os.path.relpath(q, root), open(q, "rb").read().hex()))
+        o["tree"] = tree
     return o
 
 
